@@ -113,7 +113,30 @@ impl Prop for C01 {
         }
       }
     }
+    // an object whose construction was observed (source() and size() asked after every mutating call of every
+    // ReplaceSource / ConcatSource of the tree): its chunks reassemble to the string its own source() returns, which is
+    // the reference text
+    let observed = spec.any(&|s| matches!(s, Spec::Replace { repls, .. } if !repls.is_empty()) || matches!(s, Spec::Concat { children, .. } if children.len() >= 2));
+    if observed {
+      let obj = lib_or_known!(spec, "observed construction", crate::build::build_observed(spec, &mut |s| {
+        let _ = s.source().len();
+        let _ = s.size();
+      }));
+      for columns in [true, false] {
+        let st = lib_or_known!(spec, "stream_chunks", stream(&*obj, &opts(columns, false)));
+        let text = st.text();
+        let own = lib_or_known!(spec, "source()", obj.source().to_string());
+        if text != own || own != want {
+          return Err(format!(
+            "columns={columns} (object observed while under construction): chunks reassemble to {text:?}, its source() is {own:?}, the reference text {want:?}"
+          ));
+        }
+      }
+    }
     let mut info = CaseInfo::nt(reslices(spec));
+    if observed {
+      info.classes.push("also built with observers between the mutating calls");
+    }
     tree_classes(spec, &mut info);
     if !got.is_ascii() {
       info.classes.push("multi-byte text");
